@@ -17,7 +17,19 @@
 //	L       Len()                         obs "len n"
 //	E / A   Each / EachSafe               obs "each k=v,…"
 //	J       MarshalJSON (public maps only) obs "json k=v,…" (decoded, key order of the text)
+//	X n     Each, the callback returns an error from its (n+1)-th call
+//	                                      obs "stop k=v,… err|nil"  (calls of the callback, in
+//	                                      order; err = Each returned exactly the callback's error)
+//	N n     Map(+1), the callback returns an error from its (n+1)-th call
+//	                                      obs "mapstop k=v,… err|nil" (the entries before the
+//	                                      stop are mapped, the others keep their value)
+//	W p     Find(pred p), calls observed  obs "find k=v|none calls k=v,…" (the callback is not
+//	                                      called any more after the first match)
 //	final line                            "final k=v,…|len"
+//
+// Early exits (X, N with n < Len; W with a match) leave the map USABLE: every
+// op of every history runs under a watchdog (see watchdog.go); an op that does
+// not return is the property-level diff "BLOCKED" and ends that history.
 //
 // predicates: 0 = key≠0, 1 = value even, 2 = always false, 3 = always true.
 //
@@ -27,6 +39,7 @@ package c19
 import (
 	"bytes"
 	"encoding/json"
+	"errors"
 	"fmt"
 	"math/rand"
 	"os"
@@ -81,6 +94,26 @@ type refMap struct {
 	// bookkeeping for the "nontrivial" rule
 	orderEvents int
 	deleted     map[int]bool
+	stopped     bool // an iteration was ended early by its callback (X, N) or by a match (W)
+}
+
+// afterStop: a write that follows an early-ended iteration is order-relevant
+// (it needs the lock the iteration held).
+func (m *refMap) afterStop() {
+	if m.stopped {
+		m.orderEvents++
+	}
+}
+
+func traceOf(es []refEntry) string {
+	var sb strings.Builder
+	for i, e := range es {
+		if i > 0 {
+			sb.WriteByte(',')
+		}
+		sb.WriteString(kv(e.k, e.v))
+	}
+	return sb.String()
 }
 
 func (m *refMap) idx(k int) int {
@@ -107,16 +140,7 @@ func pred(p, k, v int) bool {
 
 func kv(k, v int) string { return strconv.Itoa(k) + "=" + strconv.Itoa(v) }
 
-func (m *refMap) trace() string {
-	var sb strings.Builder
-	for i, e := range m.es {
-		if i > 0 {
-			sb.WriteByte(',')
-		}
-		sb.WriteString(kv(e.k, e.v))
-	}
-	return sb.String()
-}
+func (m *refMap) trace() string { return traceOf(m.es) }
 
 // apply executes one op on the reference and returns its observation.
 func (m *refMap) apply(op string) string {
@@ -126,6 +150,10 @@ func (m *refMap) apply(op string) string {
 			return po.a
 		}
 		return po.b
+	}
+	switch po.c {
+	case 'S', 'U', 'D', 'F', 'M', 'N':
+		m.afterStop()
 	}
 	switch string(po.c) {
 	case "S":
@@ -210,6 +238,41 @@ func (m *refMap) apply(op string) string {
 		return "each " + m.trace()
 	case "J":
 		return "json " + m.trace()
+	case "X":
+		// the callback is called for the first n+1 entries; its (n+1)-th call
+		// returns the error, which ends the iteration; the state is unchanged
+		n := arg(1)
+		if n < len(m.es) {
+			m.stopped = true
+			return "stop " + traceOf(m.es[:n+1]) + " err"
+		}
+		return "stop " + m.trace() + " nil"
+	case "N":
+		n := arg(1)
+		if n < len(m.es) {
+			tr := traceOf(m.es[:n+1])
+			for i := 0; i < n; i++ {
+				m.es[i].v++
+			}
+			m.stopped = true
+			return "mapstop " + tr + " err"
+		}
+		tr := m.trace()
+		for i := range m.es {
+			m.es[i].v++
+		}
+		return "mapstop " + tr + " nil"
+	case "W":
+		p := arg(1)
+		for i, e := range m.es {
+			if pred(p, e.k, e.v) {
+				if i+1 < len(m.es) {
+					m.stopped = true
+				}
+				return "find " + kv(e.k, e.v) + " calls " + traceOf(m.es[:i+1])
+			}
+		}
+		return "find none calls " + m.trace()
 	}
 	return "bad-op"
 }
@@ -241,6 +304,8 @@ type omap interface {
 	Has(k string) bool
 	Len() int
 	Each(fn func(k string, v int))
+	EachErr(fn func(k string, v int) error) error
+	MapErr(fn func(k string, v int) (int, error)) error
 	EachSafe(fn func(k string, v int))
 	JSON() ([]byte, error)
 	ValueJSON(k string, v int) string // encoding/json text of the value stored for (k, v)
@@ -287,6 +352,15 @@ func (a astMap) Has(k string) bool        { return a.m.Has(k) }
 func (a astMap) Len() int                 { return a.m.Len() }
 func (a astMap) Each(fn func(string, int)) {
 	_ = a.m.Each(func(k string, n jschema.ASTNode) error { fn(k, atoi(n.Value)); return nil })
+}
+func (a astMap) EachErr(fn func(string, int) error) error {
+	return a.m.Each(func(k string, n jschema.ASTNode) error { return fn(k, atoi(n.Value)) })
+}
+func (a astMap) MapErr(fn func(string, int) (int, error)) error {
+	return a.m.Map(func(k string, n jschema.ASTNode) (jschema.ASTNode, error) {
+		v, err := fn(k, atoi(n.Value))
+		return astVal(k, v), err
+	})
 }
 func (a astMap) EachSafe(fn func(string, int)) {
 	a.m.EachSafe(func(k string, n jschema.ASTNode) { fn(k, atoi(n.Value)) })
@@ -338,6 +412,15 @@ func (a ruleMap) Has(k string) bool        { return a.m.Has(k) }
 func (a ruleMap) Len() int                 { return a.m.Len() }
 func (a ruleMap) Each(fn func(string, int)) {
 	_ = a.m.Each(func(k string, n jschema.RuleASTNode) error { fn(k, atoi(n.Value)); return nil })
+}
+func (a ruleMap) EachErr(fn func(string, int) error) error {
+	return a.m.Each(func(k string, n jschema.RuleASTNode) error { return fn(k, atoi(n.Value)) })
+}
+func (a ruleMap) MapErr(fn func(string, int) (int, error)) error {
+	return a.m.Map(func(k string, n jschema.RuleASTNode) (jschema.RuleASTNode, error) {
+		v, err := fn(k, atoi(n.Value))
+		return ruleVal(v), err
+	})
 }
 func (a ruleMap) EachSafe(fn func(string, int)) {
 	a.m.EachSafe(func(k string, n jschema.RuleASTNode) { fn(k, atoi(n.Value)) })
@@ -438,9 +521,23 @@ func decodeJSON(b []byte) string {
 	return strings.Join(out, ",")
 }
 
-// runPublic drives one public map. jsonRaw[i] holds, for J ops, a non-empty
-// complaint when the raw bytes differ from the demanded JSON text.
-func runPublic(kind string, ops []string, deep bool, ref []string) (out []string) {
+// errStop is the error the callbacks of X and N end their iteration with.
+var errStop = errors.New("c19: the callback stops the iteration")
+
+func errObs(err error) string {
+	switch {
+	case err == nil:
+		return " nil"
+	case err == errStop:
+		return " err"
+	}
+	return " OTHER-ERROR(" + err.Error() + ")"
+}
+
+// runPublic drives one public map.  progress (may be nil) is called before
+// every op (and before the final observation, with i = len(ops)) with the
+// observations made so far: the heartbeat the watchdog looks at.
+func runPublic(kind string, ops []string, deep bool, ref []string, progress func(i int, out []string)) (out []string) {
 	out = make([]string, 0, len(ops)+1)
 	defer func() {
 		if r := recover(); r != nil {
@@ -454,6 +551,9 @@ func runPublic(kind string, ops []string, deep bool, ref []string) (out []string
 		return strings.Join(tr, ",")
 	}
 	for opi, op := range ops {
+		if progress != nil {
+			progress(opi, out)
+		}
 		po := parseOp(op)
 		arg := func(i int) int {
 			if i == 1 {
@@ -462,6 +562,42 @@ func runPublic(kind string, ops []string, deep bool, ref []string) (out []string
 			return po.b
 		}
 		switch string(po.c) {
+		case "X":
+			n, calls := arg(1), 0
+			var tr []string
+			err := m.EachErr(func(k string, v int) error {
+				tr = append(tr, kv(keyInt(k), v))
+				calls++
+				if calls == n+1 {
+					return errStop
+				}
+				return nil
+			})
+			out = append(out, "stop "+strings.Join(tr, ",")+errObs(err))
+		case "N":
+			n, calls := arg(1), 0
+			var tr []string
+			err := m.MapErr(func(k string, v int) (int, error) {
+				tr = append(tr, kv(keyInt(k), v))
+				calls++
+				if calls == n+1 {
+					return v + 1000, errStop // the value returned along with an error must not be stored
+				}
+				return v + 1, nil
+			})
+			out = append(out, "mapstop "+strings.Join(tr, ",")+errObs(err))
+		case "W":
+			p := arg(1)
+			var tr []string
+			k, v, ok := m.Find(func(k string, v int) bool {
+				tr = append(tr, kv(keyInt(k), v))
+				return pred(p, keyInt(k), v)
+			})
+			if ok {
+				out = append(out, "find "+kv(keyInt(k), v)+" calls "+strings.Join(tr, ","))
+			} else {
+				out = append(out, "find none calls "+strings.Join(tr, ","))
+			}
 		case "S":
 			m.Set(keyStr(arg(1)), arg(2))
 			out = append(out, "-")
@@ -547,6 +683,9 @@ func runPublic(kind string, ops []string, deep bool, ref []string) (out []string
 			out = append(out, "bad-op")
 		}
 	}
+	if progress != nil {
+		progress(len(ops), out)
+	}
 	out = append(out, "final "+trace(m.EachSafe)+"|"+strconv.Itoa(m.Len()))
 	return out
 }
@@ -556,7 +695,45 @@ func (a ruleMap) inner() json.Marshaler { return a.m }
 
 // ---------------------------------------------------------------- streams
 
-var obsSuffix = []string{"Q 0", "Q 1", "Q 2", "Q 3", "G 0", "G 1", "G 2", "V 0", "V 1", "V 2", "H 0", "H 1", "H 2", "L", "E", "A", "J"}
+// obsSuffix is appended to every exhaustive sequence of mutating ops: the
+// read-only observations, then the early exits of the read-only iterations
+// (Find with its calls observed; Each stopped by its callback at every position
+// up to 3 keys), then writes that need the lock those iterations held (Map
+// stopped at the first / third entry, Update), then the lengths again; the
+// final observation (EachSafe + Len) follows.
+var obsSuffix = []string{"Q 0", "Q 1", "Q 2", "Q 3", "G 0", "G 1", "G 2", "V 0", "V 1", "V 2", "H 0", "H 1", "H 2", "L", "E", "A", "J",
+	"W 0", "W 1", "W 2", "W 3", "X 0", "X 1", "X 2", "N 0", "N 2", "U 0", "L"}
+
+// early-exit ops: understood by the hook / the Lean driver since the protocol
+// was extended; probed at start-up (extOK) so that an older hook or driver
+// degrades to the histories without them (loudly: rep.Extra / stats).
+func isExtOp(op string) bool { return op[0] == 'X' || op[0] == 'N' || op[0] == 'W' }
+
+var hookExt, modelExt = true, true
+
+func stripOps(ops []string, drop func(string) bool) []string {
+	n := 0
+	for _, o := range ops {
+		if drop(o) {
+			n++
+		}
+	}
+	if n == 0 {
+		return ops
+	}
+	out := make([]string, 0, len(ops)-n)
+	for _, o := range ops {
+		if !drop(o) {
+			out = append(out, o)
+		}
+	}
+	return out
+}
+
+// hookOps: the history as sent to the hook (no J there).
+func hookOps(ops []string) []string {
+	return stripOps(ops, func(o string) bool { return o == "J" || (!hookExt && isExtOp(o)) })
+}
 
 func mutOps() []string {
 	var ops []string
@@ -574,17 +751,12 @@ func mutOps() []string {
 	for p := 0; p < 4; p++ {
 		ops = append(ops, fmt.Sprintf("F %d", p))
 	}
-	return append(ops, "M")
-}
-
-func withoutJ(ops []string) []string {
-	out := make([]string, 0, len(ops))
-	for _, o := range ops {
-		if o != "J" {
-			out = append(out, o)
-		}
-	}
-	return out
+	ops = append(ops, "M")
+	// early exits inside the mutating prefix: Each stopped at its first entry
+	// (read lock, state unchanged) and Map stopped at its second entry (write
+	// lock, first entry mapped, the rest not); the other positions are in the
+	// observation suffix and in the random stream
+	return append(ops, "X 0", "N 1")
 }
 
 type result struct {
@@ -617,7 +789,7 @@ func sameObs(a, b []string) bool {
 
 // evalSeq runs one sequence on all map kinds and compares with the reference.
 // nmut = number of leading mutating ops of an exhaustive sequence (-1: random).
-func evalSeq(ops []string, wantModel bool, nmut int) result {
+func evalSeq(ops []string, wantModel bool, nmut int, hb *slot) result {
 	ref, nontrivial := runRef(ops)
 	res := result{nontrivial: nontrivial}
 	kinds, deep := mapKinds, true
@@ -630,28 +802,35 @@ func evalSeq(ops []string, wantModel bool, nmut int) result {
 		res.key = strings.Join(ops, ";")
 	}
 	for _, kind := range kinds {
-		got := runPublic(kind, ops, deep, ref)
+		hb.begin(kind, ops)
+		got := runPublic(kind, ops, deep, ref, hb.progressFn())
+		hb.end()
 		if !sameObs(got, ref) {
 			res.diffs = append(res.diffs, vh.Diff{Component: "C19-ref", Input: kind + ": " + strings.Join(ops, ";"),
 				Impl: firstDiff(got, ref, ops), Model: "insertion-ordered association list: " + strings.Join(ref, " | ")})
 		}
 	}
 	// constraint map through the hook (no J there)
-	cops := withoutJ(ops)
+	cops := hookOps(ops)
 	cref := ref
 	if len(cops) != len(ops) {
 		cref, _ = runRef(cops)
 	}
+	hb.begin("schema.Constraints (hook)", ops)
 	cgot := nj.VerifConstraintsOps(cops)
+	hb.end()
 	if !sameObs(cgot, cref) {
 		res.diffs = append(res.diffs, vh.Diff{Component: "C19-ref", Input: "schema.Constraints (hook VerifConstraintsOps): " + strings.Join(cops, ";"),
 			Impl: firstDiff(cgot, cref, cops), Model: "insertion-ordered association list: " + strings.Join(cref, " | ")})
 	}
 	if wantModel {
-		res.modelReq = "omap " + strings.Join(cops, ";")
+		mops := stripOps(ops, func(o string) bool { return o == "J" || (!modelExt && isExtOp(o)) })
+		res.modelReq = "omap " + strings.Join(mops, ";")
 		// real observations (ASTNodes is the representative; all kinds were
 		// just compared with the same reference)
-		res.modelImpl = strings.Join(runPublic("ASTNodes", cops, false, nil), "|")
+		hb.begin("ASTNodes", mops)
+		res.modelImpl = strings.Join(runPublic("ASTNodes", mops, false, nil, hb.progressFn()), "|")
+		hb.end()
 	}
 	return res
 }
@@ -672,6 +851,8 @@ func firstDiff(got, ref, ops []string) string {
 	return "extra observations: " + strings.Join(got, " | ")
 }
 
+var randObs = []string{"Q 0", "Q 1", "Q 2", "Q 3", "G 0", "G 1", "G 2", "V 0", "V 1", "V 2", "H 0", "H 1", "H 2", "L", "E", "A", "J"}
+
 // randomSeq draws a sequence of up to maxLen ops over nk keys.
 func randomSeq(r *rand.Rand, maxLen, nk int) []string {
 	n := 1 + r.Intn(maxLen)
@@ -685,12 +866,19 @@ func randomSeq(r *rand.Rand, maxLen, nk int) []string {
 			ops = append(ops, fmt.Sprintf("U %d", k))
 		case x < 55:
 			ops = append(ops, fmt.Sprintf("D %d", k))
-		case x < 65:
+		case x < 63:
 			ops = append(ops, fmt.Sprintf("F %d", r.Intn(4)))
-		case x < 70:
+		case x < 67:
 			ops = append(ops, "M")
+		case x < 71:
+			// Map stopped by its callback at any position (nk = ran to the end)
+			ops = append(ops, fmt.Sprintf("N %d", r.Intn(nk+1)))
+		case x < 77:
+			ops = append(ops, fmt.Sprintf("X %d", r.Intn(nk+1)))
+		case x < 81:
+			ops = append(ops, fmt.Sprintf("W %d", r.Intn(4)))
 		default:
-			o := obsSuffix[r.Intn(len(obsSuffix))]
+			o := randObs[r.Intn(len(randObs))]
 			if f := strings.Fields(o); len(f) == 2 && f[0] != "Q" {
 				o = fmt.Sprintf("%s %d", f[0], k)
 			}
@@ -724,12 +912,19 @@ func Run(args []string) {
 		}
 	}
 	rep := vh.NewReport("c19-omap",
-		"EXHAUSTIVE: every sequence of mutating ops (S k v, U k, D k, F p, M; 3 keys, 2 values, 4 predicates = 17 ops) of length <= L "+
-			"(quick 4, thorough 6) followed by the full observation suffix (Q p, G/V/H k, L, E, A, J), run on jschema.ASTNodes, "+
+		"EXHAUSTIVE: every sequence of mutating ops (S k v, U k, D k, F p, M; 3 keys, 2 values, 4 predicates = 17 ops; plus X 0 = Each whose "+
+			"callback returns an error at the first entry and N 1 = Map whose callback returns an error at the second entry: 19 ops) of length <= L "+
+			"(quick 4; thorough 6 over the 17 ops and 5 with X/N) followed by the full observation suffix (Q p, G/V/H k, L, E, A, J; then the early "+
+			"exits W p = Find with its callback calls observed, X 0..2 = Each stopped by a callback error at each position, N 0, N 2 = Map stopped "+
+			"likewise, then U 0 and L), run on jschema.ASTNodes, "+
 			"jschema.RuleASTNodes (zero value, MakeRuleASTNodes(0|8), NewRuleASTNodes) and schema.Constraints (hook); RANDOM: sequences of "+
-			"1..200 mixed ops over 3 or 6 keys. Reference = association list. Non-trivial = the reference saw an order-relevant event "+
-			"(re-Set of a live key, Set after Delete/Filter-out, Delete on a non-empty map, Filter dropping an entry)")
+			"1..200 mixed ops (X n, N n, W p included) over 3 or 6 keys. Reference = association list; an iteration ended early has called its "+
+			"callback for the entries up to the stop, in order, returns the callback's error, and leaves the map usable. WATCHDOG: every op under a "+
+			"deadline; an op that does not return = diff BLOCKED (confirmed by a replay, per-op deadline). Non-trivial = the reference saw an "+
+			"order-relevant event (re-Set of a live key, Set after Delete/Filter-out, Delete on a non-empty map, Filter dropping an entry, a write "+
+			"after an iteration that was ended early)")
 	maxLen := vh.Pick(4, 6)
+	maxLenExt := vh.Pick(4, 5) // sequences that contain an early-exit op (X 0, N 1)
 	modelLen := vh.Pick(4, 5)
 	if modelFull {
 		modelLen = maxLen
@@ -738,10 +933,59 @@ func Run(args []string) {
 	workers := runtime.GOMAXPROCS(0)
 
 	muts := mutOps()
+	nBase := 0 // muts[:nBase] = the 17 ops without early exit
+	for nBase < len(muts) && !isExtOp(muts[nBase]) {
+		nBase++
+	}
+	// does the hook / the driver know the early-exit ops?
+	hookExt = func() bool {
+		o, where := hookReturns([]string{"X 0", "N 0", "W 0"})
+		return where != "" || (len(o) > 0 && o[0] != "bad-op")
+	}()
+	if !hookExt {
+		rep.Extra["hook_early_exit_ops"] = "MISSING: jschema.VerifConstraintsOps answers bad-op to X/N/W; schema.Constraints ran the histories without them"
+		rep.Stat("hook_without_early_exit_ops")
+	}
+	if useModel {
+		modelExt = vh.AskModel([]string{"omap X 0;N 0;W 0"})[0] != "bad-op"
+		if !modelExt {
+			rep.Extra["model_early_exit_ops"] = "MISSING: the Lean driver answers bad-op to X/N/W; the model was asked the histories without them"
+			rep.Stat("model_without_early_exit_ops")
+		}
+	}
 	var mu sync.Mutex
+	closed := false // set (under mu) when the run was ended by the watchdog: late results are dropped
 	var modelReq, modelImpl []string
+	wd := newWatchdog(func(ds []vh.Diff, stat string) {
+		mu.Lock()
+		defer mu.Unlock()
+		if closed {
+			return
+		}
+		rep.Stat(stat)
+		for _, d := range ds {
+			rep.AddDiff(d)
+		}
+	})
+	defer wd.stop()
+	// waitWorkers: true = all workers finished (or were given up one by one), false = run ended by the watchdog
+	waitWorkers := func(wg *sync.WaitGroup) bool {
+		ch := make(chan struct{})
+		go func() { wg.Wait(); close(ch) }()
+		select {
+		case <-ch:
+		case <-wd.abortCh:
+		}
+		if wd.abort.Load() {
+			mu.Lock()
+			closed = true
+			mu.Unlock()
+			return false
+		}
+		return true
+	}
 	flushModel := func(force bool) {
-		if !useModel || len(modelReq) == 0 || (!force && len(modelReq) < 400000) {
+		if closed || !useModel || len(modelReq) == 0 || (!force && len(modelReq) < 400000) {
 			return
 		}
 		replies := vh.AskModelSharded(modelReq, workers)
@@ -756,6 +1000,9 @@ func Run(args []string) {
 	record := func(rs []result) {
 		mu.Lock()
 		defer mu.Unlock()
+		if closed {
+			return
+		}
 		for _, r := range rs {
 			if r.exhaustiveLong {
 				// keys of the exhaustive stream are distinct by construction:
@@ -796,18 +1043,22 @@ func Run(args []string) {
 	lenCount := map[int]int{}
 	for w := 0; w < workers; w++ {
 		wg.Add(1)
+		hb := wd.newSlot(wg.Done)
 		go func() {
-			defer wg.Done()
+			defer hb.finish()
 			for s := range jobs {
 				var batch []result
 				local := map[int]int{}
 				emit := func(idx []int) {
+					if wd.abort.Load() || hb.gone.Load() {
+						return
+					}
 					ops := make([]string, 0, len(idx)+len(obsSuffix))
 					for _, i := range idx {
 						ops = append(ops, muts[i])
 					}
 					ops = append(ops, obsSuffix...)
-					res := evalSeq(ops, useModel && len(idx) <= modelLen, len(idx))
+					res := evalSeq(ops, useModel && len(idx) <= modelLen, len(idx), hb)
 					res.exhaustiveLong = len(idx) > 3
 					batch = append(batch, res)
 					local[len(idx)]++
@@ -822,17 +1073,21 @@ func Run(args []string) {
 						emit([]int{a})
 					}
 				} else {
-					var rec func(idx []int)
-					rec = func(idx []int) {
+					// ext = idx contains an early-exit op: such sequences stop at maxLenExt
+					var rec func(idx []int, ext bool)
+					rec = func(idx []int, ext bool) {
 						emit(idx)
-						if len(idx) == maxLen {
+						if len(idx) == maxLen || (ext && len(idx) >= maxLenExt) || wd.abort.Load() {
 							return
 						}
 						for i := range muts {
-							rec(append(idx, i))
+							if i >= nBase && len(idx) >= maxLenExt {
+								continue
+							}
+							rec(append(idx, i), ext || i >= nBase)
 						}
 					}
-					rec(append([]int(nil), s.prefix...))
+					rec(append([]int(nil), s.prefix...), s.prefix[0] >= nBase || s.prefix[1] >= nBase)
 				}
 				record(batch)
 				statMu.Lock()
@@ -846,19 +1101,26 @@ func Run(args []string) {
 			}
 		}()
 	}
-	wg.Wait()
+	completed := waitWorkers(&wg)
+	statMu.Lock()
 	for l, c := range lenCount {
 		rep.Stats[fmt.Sprintf("exhaustive_len_%d", l)] = c
 	}
+	statMu.Unlock()
 
 	// ---- random stream
+	var wg2 sync.WaitGroup
 	chunk := (nRandom + workers - 1) / workers
-	for w := 0; w < workers; w++ {
-		wg.Add(1)
+	for w := 0; w < workers && completed; w++ {
+		wg2.Add(1)
+		hb := wd.newSlot(wg2.Done)
 		go func(w int) {
-			defer wg.Done()
+			defer hb.finish()
 			var batch []result
 			for i := w * chunk; i < (w+1)*chunk && i < nRandom; i++ {
+				if wd.abort.Load() || hb.gone.Load() {
+					return
+				}
 				r := vh.NewRand(1900000 + int64(i)) // per-case PRNG: case i replays alone
 				nk := 3
 				if i%3 == 2 {
@@ -869,7 +1131,7 @@ func Run(args []string) {
 					maxL = 12
 				}
 				ops := randomSeq(r, maxL, nk)
-				batch = append(batch, evalSeq(ops, useModel, -1))
+				batch = append(batch, evalSeq(ops, useModel, -1, hb))
 				if len(batch) >= 500 {
 					record(batch)
 					batch = batch[:0]
@@ -878,14 +1140,20 @@ func Run(args []string) {
 			record(batch)
 		}(w)
 	}
-	wg.Wait()
-	rep.Stats["random_sequences"] = nRandom
+	if completed {
+		completed = waitWorkers(&wg2)
+		rep.Stats["random_sequences"] = nRandom
+	}
 	rep.Extra["maps_per_sequence"] = "length<=4 and random: ASTNodes, RuleASTNodes x4 constructors, Constraints; length 5: 3 public + Constraints; length 6: 2 public + Constraints"
 	mu.Lock()
+	defer mu.Unlock() // late workers (there are none unless the watchdog ended the run) stay out of the report
 	flushModel(true)
-	mu.Unlock()
-	rep.Exhaustive = true
-	rep.Extra["exhaustive_bound"] = fmt.Sprintf("all mutating sequences of length <= %d over 17 ops, each + %d observations", maxLen, len(obsSuffix))
+	rep.Exhaustive = completed && wd.blocked.Load() == 0
+	if !completed {
+		rep.Extra["ended_early"] = fmt.Sprintf("the watchdog confirmed %d histories with an op that does not return (diffs BLOCKED) and ended the run; the streams are incomplete", maxBlocked)
+	}
+	rep.Extra["watchdog"] = fmt.Sprintf("fast path: heartbeat per op, stall > %v = suspect; suspects replayed on all map kinds with every op in its own goroutine under %v (hook: shortest prefix that does not return); run ended after %d confirmed histories", stallDeadline, opDeadline, maxBlocked)
+	rep.Extra["exhaustive_bound"] = fmt.Sprintf("all mutating sequences of length <= %d over 17 ops and of length <= %d over 19 ops (with X 0, N 1), each + %d observations", maxLen, maxLenExt, len(obsSuffix))
 	if useModel {
 		rep.Extra["model"] = fmt.Sprintf("omap requests for exhaustive length <= %d and all random sequences", modelLen)
 	} else {
